@@ -25,19 +25,31 @@ RULE_REAL = (
     "configuration and by SearchApp::build_search_instance (CostModelService::build) from the query: vertices on a "
     "1/8-degree grid, edge lengths >= ceil(max(implementation haversine, independent f64 great-circle) x stretch) + 1 m "
     "(1/8 of the random networks deliberately shorter: A* makes no claim there), all distance / time / speed units for "
-    "model and state features, weights {0,1/4,1/2,1,2} with positive sum, rates raw / factor, per-edge surcharge "
+    "model and state features, speed tables with rows up to 200 kph / 125 mph / 56 m/s (far above the 75 mph 'soft "
+    "maximum' of SpeedUnit) in every speed unit, weights {0,1/4,1/2,1,2} with positive sum, rates raw / factor / "
+    "Combined chains of 2-3 factors (a quarter of the chains with an offset: no claim for A*), per-edge surcharge "
     "tables, weights / rates / aggregation overridden from the query in a third / fourth / sixth of the cases, weight "
     "factors {default, 0, 1/2, 1} from configuration or query (3 and product aggregation: no claim for A*), forward "
-    "and reverse; boundary families: two-route network whose distance- and time-optimal routes differ with every "
-    "override direction, per-edge surcharges on the first / last edge of the shorter route (forward and reverse), a 'highway' network on which an estimate at the mean table speed is inadmissible, and a "
-    "chain of 20-60 short edges against one direct edge 0.05-0.5 % longer for EVERY (model distance unit, state feature "
-    "unit) pair and speed-model unit mixes with miles on either side (a fifth of the random cases too). I vs M (bit-exact floats): cost of every edge traversed alone and weighted estimate of every "
-    "vertex, and the cost of the route's last edge traversed from the states after 0, 10 and all hops of Dijkstra's "
-    "route (ties the objective model incl. get_max_speed, unit conversions, service override logic, accumulation). J vs S: the "
-    "routes of Dijkstra and of the configured A* pass the verified certificate check in Coq over the per-edge costs "
-    "of a cost model built DIRECTLY from the weights/rates/aggregation in force by the specification (query's when "
-    "present), tolerance 1e-9 relative, and the three position-dependent costs of one edge agree within 1e-9 "
-    "(edge-locality measured on the implementation); implementation haversine within 0.5 % of the independent value on every edge. "
+    "and reverse; an eighth of the random cases and a boundary family are the LAST query of a sequence of 2-4 queries "
+    "run one at a time through CompassApp::run on ONE application instance, one (often the first) of them with its own "
+    "weights / vehicle_rates / cost_aggregation. Boundary families: two-route network whose distance- and time-optimal "
+    "routes differ with every override direction, per-edge surcharges on the first / last edge of the shorter route "
+    "(forward and reverse), a 'highway' network on which an estimate at the mean table speed is inadmissible, the same "
+    "with table rows above the soft maximum in each speed unit (the estimate must use the table's own maximum), Combined "
+    "chains whose last (or first) mapping alone would flip the route, Dijkstra on a non-metric network, and a chain of "
+    "20-60 short edges against one direct edge 0.05-0.5 % longer for EVERY (model distance unit, state feature unit) "
+    "pair and speed-model unit mixes with miles on either side (a fifth of the random cases too). "
+    "I vs M (bit-exact floats): cost of every edge traversed alone, weighted estimate of every vertex, the cost of the "
+    "route's last edge traversed from the states after 0, 10 and all hops of Dijkstra's route, and max_speed of the REAL "
+    "SpeedTraversalEngine built from the same table (ties the objective model incl. get_max_speed, unit conversions, "
+    "Combined rates, service override logic, accumulation). J vs S, all judged in Coq over the per-edge costs of the "
+    "OBJECTIVE MODEL (the objective in force by the specification: query's weights/rates/aggregation when present, else "
+    "the configured ones), tolerance 1e-9 relative: the routes of Dijkstra and of the configured A* pass the verified "
+    "certificate check; the three position-dependent costs of one edge agree (edge-locality measured); the "
+    "implementation's weighted estimate of every vertex is at most the remaining cost to the target (admissibility "
+    "measured, when A* is inside the hypothesis); the engine's max_speed equals the maximum of its table; every response "
+    "of a sequence (path, cost, cost-model echo) equals the response of the same query run alone on a fresh application "
+    "instance; implementation haversine within 0.5 % of the independent value on every edge. "
     "Non-trivial = A* inside the hypothesis and a route of >= 2 edges; distinct by case")
 
 
@@ -65,6 +77,27 @@ def views(r):
     # the model line of the second view is the claim itself (nothing to correspond to)
     b.model = {"M": dict(r.impl.get("J", {})), "S": r.model.get("S", {})}
     return a, b
+
+
+def expand_view(chk, binp, b, limit=4):
+    """(J, S) payloads of failing cases that were hashed (> 160 bytes) are re-run in full, so that the replay file
+    shows the verdict text (vf.compare's own re-expansion would fetch the I line of the case)"""
+    I, S = b.impl.get("I", {}), b.model.get("S", {})
+    k = 0
+    for cid, case in b.cases.items():
+        i, sp = I.get(cid), S.get(cid)
+        if i is None or sp is None or i == sp or not (i.startswith("#") or sp.startswith("#")):
+            continue
+        if k >= limit:
+            break
+        k += 1
+        try:
+            fi, fm = vf.expand_case(binp, "real", case, os.path.join(chk.outdir, "expand_real"))
+            if fi.get("J") is not None and fm.get("S") is not None:
+                I[cid], S[cid] = fi["J"], fm["S"]
+                b.model["M"][cid] = fi["J"]
+        except Exception as e:  # noqa
+            vf.log("expand failed", e)
 
 
 def corpus(chk, binp, stream):
@@ -115,7 +148,7 @@ def run(chk):
     chk.proofs(extra_targets=["Model/ObjectiveRun.vo", "Proofs/OptimalCheck.vo"])
     binp = vf.build_harness("c02")
     quick = chk.tier == "quick"
-    streams = [("opt", 420 if quick else 15000), ("real", 210 if quick else 6000)]
+    streams = [("opt", 420 if quick else 15000), ("real", 260 if quick else 6000)]
     if chk.replay:
         # a replay file names its stream in the case description
         try:
@@ -139,6 +172,7 @@ def run(chk):
                 else:
                     a, b = views(rc)
                     vf.compare(chk, a, classify=classify, binpath=binp, stream_label="corpus_real")
+                    expand_view(chk, binp, b)
                     vf.compare(chk, b, classify=classify, stream_label="corpus_real")
         r = vf.run_stream(binp, stream, n, chk.seed, os.path.join(chk.outdir, stream), replay=chk.replay)
         if stream == "opt":
@@ -151,6 +185,7 @@ def run(chk):
             a, b = views(r)
             vf.compare(chk, a, classify=classify, binpath=binp)
             # (J, S) payloads are short; no re-expansion (it would fetch the I line of the case)
+            expand_view(chk, binp, b)
             vf.compare(chk, b, classify=classify)
     if chk.broken_obligation:
         chk.violation("broken-obligation", "proofs", {"obligations": chk.broken_obligation}, "does not check", "Qed",
